@@ -361,12 +361,30 @@ def gen_os(rng):
         if not (h0 < text_pa + textsz + 0x800000 and h1 > text_pa - 0x200000):
             hole = (h0, h1)
     small = 1 in gran
-    if small:
+    # the lowest physical frames are not mapped (reserved by firmware / the hypervisor): the first
+    # mapped page of the direct map is not frame 0, the mapping is still virt = D + phys.  The
+    # library must not take the first mapped address for the start of a "-first" direct region.
+    lowskip = 0
+    if rng.random() < 0.25:
+        kind = rng.choice(["4k", "2m", "2m", "1g"])
+        if kind == "4k":
+            lowskip = rng.randint(1, 255) << 12
+        elif kind == "2m":
+            lowskip = rng.randint(1, 64) << 21
+        else:
+            lowskip = rng.randint(1, 2) << 30
+        if lowskip > memsz // 4 or (hole and lowskip + 0x400000 > hole[0]):
+            lowskip = rng.randint(1, 255) << 12 if (not hole or hole[0] > 0x400000) else 0
+    if lowskip & 0x1fffff:
+        nxt = (lowskip + 0x1fffff) & ~0x1fffff
+        map_linear(pt, D + lowskip, lowskip, nxt - lowskip, rng, [1])
+        lo = nxt
+    elif small:
         # a 4K-mapped first 2M (as real kernels have around the low 1M)
-        map_linear(pt, D, 0, 0x200000, rng, [1])
-        lo = 0x200000
+        map_linear(pt, D + lowskip, lowskip, 0x200000, rng, [1])
+        lo = lowskip + 0x200000
     else:
-        lo = 0
+        lo = lowskip
     if hole:
         map_linear(pt, D + lo, lo, hole[0] - lo, rng, [g for g in gran if g > 1] or [2])
         map_linear(pt, D + hole[1], hole[1], memsz - hole[1], rng, [g for g in gran if g > 1] or [2])
@@ -450,7 +468,7 @@ def gen_os(rng):
                     out_cells.append("0:%x%s%s" % (addr, sep, val))
                 if caps & 4:
                     # kernel-virtual aliases: through the direct map and, for the image, the text mapping
-                    if addr < memsz and not (hole and hole[0] <= addr < hole[1]):
+                    if lowskip <= addr < memsz and not (hole and hole[0] <= addr < hole[1]):
                         out_cells.append("2:%x%s%s" % (D + addr, sep, val))
                     if text_pa <= addr < text_pa + textsz:
                         out_cells.append("2:%x%s%s" % (addr - phys_base + KTEXT_START, sep, val))
@@ -463,19 +481,24 @@ def gen_os(rng):
              KTEXT_START, 0xffffffff9fffffff, 0xffffffffa0000000, D + text_pa, D + root_pa]
     if hole:
         edges += [D + hole[0] - 1, D + hole[0], D + hole[1] - 1, D + hole[1]]
+    if lowskip:
+        edges += [D + lowskip - 1, D + lowskip, D + lowskip + 0x1000, D + lowskip + 0x234567, D + lo - 1, D + lo,
+                  D + lowskip + 0x200000, D + lowskip + 0x40000000]
     edges += extras
     for e in edges:
         qs.add(e & M64)
     for _ in range(6):
         qs.add((D + rng.randint(0, memsz - 1)) & M64)
         qs.add(stext + rng.randint(0, textsz - 1))
-    ps = set([0, memsz - 1, memsz, phys_base, text_pa, text_pa + textsz - 1, root_pa, 0xfffffffffffff, 1 << 52])
+    ps = set([0, lowskip, max(lowskip, 1) - 1, lowskip + 0x1000, memsz - 1, memsz, phys_base, text_pa, text_pa + textsz - 1, root_pa, 0xfffffffffffff, 1 << 52])
     for _ in range(4):
         ps.add(rng.randint(0, memsz - 1))
     if hole:
         ps |= {hole[0], hole[1] - 1, hole[1]}
     qt = ["Q:%x" % q for q in sorted(qs)] + ["P:%x" % p for p in sorted(ps)]
-    tag = "os/%s/%s/root=%s/vb=%s/caps=%x" % ("5l" if five else "4l", vclass, rootmode, vbmode, caps)
+    tag = "os/%s/%s%s/root=%s/vb=%s/caps=%x" % ("5l" if five else "4l", vclass,
+                                                 "" if not lowskip else "/lowskip-%s" % ("4k" if lowskip & 0x1fffff else "2m" if lowskip & 0x3fffffff else "1g"),
+                                                 rootmode, vbmode, caps)
     return [("os " + " ".join(toks + qt + out_cells), "", tag)]
 
 
